@@ -3,10 +3,11 @@
     Model/Receivers.v (each receiving entry point as a loop whose body may Continue, Exit or
     Crash). The Thrift message layer under the Frugal header is a parameter assumed graceful
     (Apache Thrift's readers and the generated struct readers: exercised differentially only). *)
-From Coq Require Import ZArith List.
+From Coq Require Import ZArith List Bool.
 From FV Require Import Base.Res Base.Bytes Base.GoSem Model.Headers Model.Receivers
   Proofs.BytesProofs Proofs.HeadersProofs Proofs.ReceiversProofs
-  Model.ReceiversFraming Proofs.ReceiversFramingProofs.
+  Model.ReceiversFraming Proofs.ReceiversFramingProofs
+  Model.ReceiversHttp Proofs.ReceiversHttpProofs.
 Import ListNotations.
 Open Scope Z_scope.
 
@@ -176,3 +177,73 @@ Example c05_framed_read_swallowed_error_before_repair :
   fst (framed_read 16384000 pinned_witness 4) = Rd [] (Some EOther) /\
   f_size (snd (framed_read 16384000 pinned_witness 4)) = 0.
 Proof. exact framed_read_pinned_swallows. Qed.
+
+(** ------------------------------------------------------------------------------------
+    HTTP (lib/go/http_transport.go): the client's response path and the handler's size header.
+    Model/ReceiversHttp.v; net/http is outside, encoding/base64 is transcribed. *)
+
+(** fHTTPTransport.Request/Oneway, every status code, every body, body read failing or not:
+    a frame, nil (one-way) or an error; never the slice panic of response[4:] *)
+Theorem c05_http_client_response_total : forall status body trunc,
+  http_client_response status body trunc <> HcPanic.
+Proof. exact http_client_response_total. Qed.
+Print Assumptions c05_http_client_response_total.
+
+(** it hands a frame to the caller exactly when the status is below 300, the body could be read
+    and is valid base64 of more than 4 bytes; the payload is everything after the prefix *)
+Theorem c05_http_client_accepts_exactly : forall status body trunc p,
+  http_client_response status body trunc = HcFrame p <->
+  (status <> 413 /\ trunc = false /\ status < 300 /\
+   exists resp, b64_decode body = Some resp /\ 4 < zlen resp /\ p = drop 4 resp).
+Proof. exact http_client_frame_iff. Qed.
+Print Assumptions c05_http_client_accepts_exactly.
+
+(** status >= 300 is always an error (413 -> RESPONSE_TOO_LARGE) whatever the body contains *)
+Theorem c05_http_client_error_status : forall status body trunc,
+  300 <= status -> exists e, http_client_response status body trunc = HcErr e.
+Proof. exact http_client_error_status. Qed.
+Print Assumptions c05_http_client_error_status.
+
+(** the base64 decoder of the model accepts every encoder output and returns the bytes *)
+Theorem c05_base64_roundtrip : forall bs, bytes_ok bs -> b64_decode (b64_encode bs) = Some bs.
+Proof. exact b64_roundtrip. Qed.
+Print Assumptions c05_base64_roundtrip.
+
+(** so a well-formed reply reaches the caller intact *)
+Theorem c05_http_client_wellformed_reply : forall status prefix payload,
+  status < 300 -> bytes_ok prefix -> bytes_ok payload -> length prefix = 4%nat -> payload <> [] ->
+  http_client_response status (b64_encode (prefix ++ payload)) false = HcFrame payload.
+Proof. exact http_client_wellformed. Qed.
+Print Assumptions c05_http_client_wellformed_reply.
+
+(** server handler: any x-frugal-payload-limit value and any Content-Length give one of the
+    four statuses; a value that is not an integer is a 400; a positive limit is enforced exactly,
+    a non-positive one is no limit *)
+Theorem c05_http_server_size_header_total : forall limit clen pok prok outlen,
+  let s := http_server_status limit clen pok prok outlen in
+  s = 200 \/ s = 400 \/ s = 413 \/ s = 500.
+Proof. exact http_server_status_cases. Qed.
+Print Assumptions c05_http_server_size_header_total.
+
+Theorem c05_http_server_limit_exact : forall s lim clen outlen,
+  parse_int64 s = Some lim -> s <> [] -> 4 <= clen ->
+  http_server_status (Some s) clen true true outlen =
+    if (0 <? lim) && (lim <? outlen) then 413 else 200.
+Proof. exact http_server_limit_exact. Qed.
+Print Assumptions c05_http_server_limit_exact.
+
+Theorem c05_http_server_bad_limit_rejected : forall s clen pok prok outlen,
+  s <> [] -> parse_int64 s = None -> http_server_status (Some s) clen pok prok outlen = 400.
+Proof. exact http_server_bad_limit. Qed.
+Print Assumptions c05_http_server_bad_limit_rejected.
+
+Example c05_http_examples :
+  http_client_response 200 [65;65;65;65;65;81;85;61] false = HcFrame [5]      (* "AAAAAQU=" *)
+  /\ http_client_response 200 [65;65;65;65;65;65;61;61] false = HcOneway      (* "AAAAAA==" *)
+  /\ http_client_response 200 [65;65;65;66;65;65;61;61] false = HcErr HcInvalidData
+  /\ http_client_response 200 [65;65;65] false = HcErr HcUnknown
+  /\ http_client_response 413 [] false = HcErr HcTooLarge
+  /\ http_client_response 500 suf_canceled false = HcErr HcTimedOut
+  /\ parse_int64 [45;49;50] = Some (-12) /\ parse_int64 [49;95;48] = None
+  /\ http_server_status (Some [53]) 100 true true 6 = 413.
+Proof. vm_compute. repeat split. Qed.
